@@ -80,7 +80,7 @@ Qed.
 
 Lemma visit_step_wg s i s' : calls_ok s -> wg_ok s -> visit_step s i = Some s' -> wg_ok s'.
 Proof.
-  intros Hc (Hx & Hw) H. unfold visit_step in H. destruct (rd s); try discriminate.
+  intros Hc (Hx & Hw) H. unfold visit_step in H. destruct (rd_cancel (rd s)) eqn:Erc; [|discriminate]. unfold visit_body in H.
   destruct (nth_error (calls s) i) as [c|] eqn:En; [|discriminate].
   pose proof (Forall_nth _ _ _ _ Hc En) as Hci.
   destruct (c_tab c) eqn:Et; [|discriminate]. cbn in H.
@@ -163,6 +163,7 @@ Proof.
   - destruct seen; inversion H; subst; split; cbn; auto.
   - inversion H; subst; split; cbn; auto.
   - inversion H; subst; unfold notify; cbn. destruct (notified s); split; auto.
+  - destruct (all_visited (calls s)); inversion H; subst; split; cbn; auto.
 Qed.
 
 Lemma wg_ok_step s e s' fx : calls_ok s -> bound_ok s -> wg_ok s -> sstep s e = Some (s', fx) -> wg_ok s'.
@@ -427,6 +428,8 @@ Proof.
       by (inversion H; reflexivity).
     subst s'. eapply (g_inv_st_change s); eauto; unfold notify; cbn; destruct (notified s); cbn; auto;
       try discriminate; rewrite ?Erd; try discriminate; rewrite Hr; discriminate.
+  - destruct (all_visited (calls s)); inversion H; subst. destruct G as (G1 & G2 & G3 & G4 & G5). unfold g_inv, past_ctx_wait; cbn.
+    repeat split; auto; try tauto; try discriminate.
 Qed.
 
 Lemma g_inv_step s e s' fx : stat_inv s -> wg_ok s -> g_inv s -> sstep s e = Some (s', fx) -> g_inv s'.
@@ -452,7 +455,7 @@ Proof.
   - unfold noeff in H. destruct (visit_step s i) eqn:E; inversion H; subst.
     destruct (visit_step_ctrl _ _ _ E) as (E1 & _ & _ & E4 & E5 & E6 & _).
     eapply g_inv_same; eauto;
-      unfold visit_step in E; destruct (rd s); try discriminate;
+      unfold visit_step in E; destruct (rd_cancel (rd s)) eqn:Erc; try discriminate; unfold visit_body in E;
       destruct (nth_error (calls s) i) as [c|]; try discriminate;
       destruct (c_tab c && negb (c_vis c) && mu_free c); try discriminate;
       destruct (negb (c_rep c) && cstat_ok (c_stat c)); inversion E; reflexivity.
